@@ -52,3 +52,12 @@ pub fn vshim_concat(a: String, b: &str) -> (r: String) ensures r@ == a@ + b@ { a
 /// std: String::is_empty / str::is_empty
 #[verifier::external_body]
 pub fn vshim_is_empty(a: &str) -> (r: bool) ensures r == (a@.len() == 0) { a.is_empty() }
+
+/// std: `s.chars().count()`
+#[verifier::external_body]
+pub fn vshim_char_count(s: &str) -> (r: usize) ensures r == s@.len() { s.chars().count() }
+
+/// std: `x.chars().count()` as a method (value unspecified)
+pub trait VCharCount { fn vchars_count(&self) -> usize; }
+impl VCharCount for String { #[verifier::external_body] fn vchars_count(&self) -> usize { self.chars().count() } }
+impl VCharCount for str { #[verifier::external_body] fn vchars_count(&self) -> usize { self.chars().count() } }
